@@ -64,7 +64,7 @@ class Cfg(object):
         self.strings = True
         self.regular = True
         self.unknown = True
-        self.categorical = True
+        self.categorical = False
         self.indexed = True                    # allow IndexedArray indirection
         self.params = True                     # random parameters on nodes
         self.ndnumpy = True                    # fold regular dims into an n-d NumpyArray
